@@ -45,4 +45,11 @@ META = {
          "by induction every history yields the plain set-per-annotator model; zero-length rejection is an iff with the view unchanged; "
          "copy / merge / __add__ results are proved fresh and disjoint from their sources.",
    note="Assumed: sortedcontainers / deepcopy / pyannote Segment models. Bounded only: __eq__, __ne__, __getitem__, iterunits."),
+ "C16": dict(
+   technique="contract-based deductive verification of the pure interval function _remove_pivot_segment (loop invariant over all real points, "
+             "termination variant) and of the Continuum operations the sampler calls; the sampling loop itself by a bounded stand-in",
+   level="Proved for all inputs: the available set after removing a pivot is exactly the previous set minus the open zone "
+         "(pivot - dist, pivot + dist) - the fact pivot separation rests on - plus the contracts of copy_flush / add / add_annotator / "
+         "iter_annotator. Bounded (labelled): the wrapped-translation clauses of sample_from_continuum on seeded draws.",
+   note="Known finding (int_pivot mode): truncation can leave the available segment, see known_findings.json. np.random is exercised, not modelled."),
 }
